@@ -353,6 +353,9 @@ func (vc *VC) loopHeader(li *LoopInfo, reach Term, entrySt *State, entryPhi map[
 			if !ok || !mod[name] {
 				continue
 			}
+			if !strings.HasPrefix(name, "Mem_") && !strings.HasPrefix(name, "Heap_") && !strings.HasPrefix(name, "MapHeap_") {
+				continue // locals, globals and iterators are not reference-indexed heaps
+			}
 			oldH, newH := vc.heapGet(entrySt, name, sort), vc.heapGet(st, name, sort)
 			if oldH == newH {
 				continue
@@ -606,6 +609,13 @@ func (vc *VC) instr(in ssa.Instruction, st *State, reach Term, b *ssa.BasicBlock
 		vc.store(st, lv, vc.asTerm(v))
 	case *ssa.Alloc:
 		t := x.Type().(*types.Pointer).Elem()
+		if !x.Heap && vc.allocIsLocal(x) {
+			// the address never escapes: a state variable of its own, untouched by calls
+			lv := &LVal{kind: lvLocal, typ: t, heap: vc.localName(x), nonnil: true}
+			vc.store(st, lv, vc.S.zero(t))
+			vc.vals[x] = Val{lv: lv, typ: x.Type()}
+			return
+		}
 		r := vc.freshRef(st, x.Name())
 		lv := vc.rootLV(x.Type(), r, true)
 		vc.store(st, lv, vc.S.zero(t))
